@@ -27,6 +27,7 @@ def run(tier: str) -> Report:
     # a second family: imports from another container with small pack targets and cache budgets that force several flushes
     jobs += [(PROP, i, PARTS, max_points, 'noholes') for i in range(6 if tier == 'quick' else ncases // 5)]
     jobs += [(PROP, i, PARTS, max_points, 'delete') for i in range(4 if tier == 'quick' else ncases // 6)]
+    jobs += [(PROP, i, PARTS, max_points + 20, 'bigpack') for i in range(1 if tier == 'quick' else 6)]
     jobs += [(PROP, i, PARTS, max_points, 'packall') for i in range(8 if tier == 'quick' else ncases // 4)]
     jobs += [(PROP, i, PARTS, max_points, 'import') for i in range(10 if tier == 'quick' else ncases // 3)]
     ctx = mp.get_context('fork')
